@@ -45,7 +45,10 @@ LEVEL_TEXT = ("Theorems (Coq, over the reals, for all inputs): exactness on ever
               "(C03_method_error_bound) and at any position of a call sequence (C03_error_bound_after_any_history); and the refinement of Integrate to a "
               "simple specification (C03_integrate_is_composite_rule): for distinct limits the value is +-1 times the sum, over the panels on which the "
               "recursion stops, of the five-point value S2+(S2-S)/15, these panels abut, tile the ordered interval and are the interval halved "
-              "k <= depth times, and the integrand is evaluated four times per panel plus once. Still only tested, not "
+              "k <= depth times, and the integrand is evaluated four times per panel plus once. A-priori size of the estimates over the reals (C03_leaf_value_bounded, C03_value_bounded): for an integrand bounded by M every estimate is at most |b-a| M, "
+              "S2 - S at most 2 |b-a| M, every accepted value and the returned value at most (17/15) |b-a| M - the check uses these bounds to decide from the request whether an "
+              "intermediate of the rule as written can reach the largest double; polynomials whose values, estimates and integral lie anywhere below that (ladder DBL_MAX * 2^-j) "
+              "are held to exactness, beyond it the library returns NaN for representable integrals (known finding K-C03-1). Still only tested, not "
               "proved: how far the rounded value of a polynomial's integral is from the exact one (the 'to rounding' part), and that the laws "
               "named as premises hold for the C++ double operations.")
 LEVEL_NOTE = ("Coq 8.16.1 kernel + Coquelicot; standard-library real-number axioms (listed in the evidence). Hand-written model tied by "
@@ -268,7 +271,7 @@ def gen_regular(rng, dmax, far=False):
         p = rng.choice([4.0, 5.0, 6.0, 7.0, -1.0, -2.0, 0.5, 1.5, 2.5, 3.5, rng.uniform(-3, 8)])
         if p in (0.0, 1.0, 2.0, 3.0): p = 4.5
         a = 10 ** rng.uniform(-3, 3)
-        rmax = 1e3 if p == 4.0 else min(1e3, 4 ** (1 / abs(p - 4)))
+        rmax = 1e3 if abs(p - 4.0) < 0.2 else min(1e3, 4 ** (1 / abs(p - 4)))      # (4^(1/0.2) = 1024 > 1e3; avoids the overflow of 4^(1/tiny))
         b = a * (1 + rng.uniform(0.05, 0.999) * (rmax - 1))
         if b - a > 1e3: b = a + 1e3 * rng.random()
         fx = f"pow x {hx(p)}"; params = [p]; sc = abs(b - a) * max(a ** p, b ** p)
@@ -277,6 +280,58 @@ def gen_regular(rng, dmax, far=False):
     eps = math.copysign(min(max(abs(eps), 1e-18), 1e2), eps)
     depth = rng.choice([dmax, dmax, dmax, rng.randint(0, dmax)])
     if rng.random() < 0.5: a, b = b, a
+    return a, b, eps, depth, fam, params, fx
+
+
+# ---------------------------------------------------------------- polynomials at the upper end of the double range
+DBL_MAX = 1.7976931348623157e308
+
+
+def estimates_representable(wd, fmax):
+    """a-priori: no intermediate of Integrate can reach DBL_MAX when every |f(x)| <= fmax on the interval of width wd.
+    Panel sums fa + 4 fc + fb are at most 6 fmax; every estimate (h/6)(..), (h/12)(..), Sleft + Sright is at most wd fmax; S2 - S at most
+    2 wd fmax; a leaf value S2 + (S2 - S)/15 at most (17/15) h fmax and the sum of the leaves at most (17/15) wd fmax
+    (theorem C03_leaf_value_bounded, over the reals; the factor 1 + 1e-9 covers the roundings)."""
+    m = 1 + 1e-9
+    return 6 * fmax * m < DBL_MAX and 2 * wd * fmax * m < DBL_MAX
+
+
+def gen_huge(rng, dmax):
+    """polynomial of degree <= 5 (both families, both ways of writing it) scaled to the upper end of the double range: the a-priori
+    bound max(6 max|f|, 2 |b-a| max|f|) of the integrator's intermediates - or the exact integral itself - is put on a geometric ladder
+    DBL_MAX * 2^-j, j = 0 .. 80 (function values, panel estimates and the integral all representable), small depths mostly (the
+    tolerance is never met at such magnitudes: the whole tree down to the depth limit is realised); a small share with j in -2 .. 0,
+    where an intermediate of the rule as written may exceed DBL_MAX although the integral does not (signature suffix
+    estimate-overflow)."""
+    base = gen_quintic(rng, dmax) if rng.random() < 0.55 else gen_qshift(rng, dmax, far=rng.random() < 0.15)
+    a, b, _, _, fam, params, _ = base
+    s, cs = (0.0, params) if fam == "quintic" else (params[0], params[1:])
+    if rng.random() < 0.25:      # one sign: no cancellation between the terms on a one-sided interval
+        cs = [abs(c) for c in cs]
+    wd = abs(b - a); T = max(abs(a - s), abs(b - s))
+    fmax = sum(abs(c) * T ** k for k, c in enumerate(cs))
+    if not (0 < fmax < 1e300): return None
+    bound = max(6 * fmax, 2 * wd * fmax)
+    r = rng.random()
+    j = rng.choice([0.0, 0.5, 1.0, 1.5, 2.0, 2.5, 3.0, 3.5, 4.0, 5.0, 6.0, 8.0, 12.0, 20.0, 40.0, 80.0]) + rng.random() * 0.5 + 1e-6
+    if r < 0.12: j = -rng.uniform(0, 2)                      # beyond the a-priori bound
+    if r < 0.6:
+        scale = DBL_MAX / bound * 2.0 ** -j
+    else:                                                    # the integral itself on the ladder, as far as the a-priori bound allows
+        I = abs(float(exact_quintic(cs, a, b, s)))
+        if not (I > 0): return None
+        scale = min(DBL_MAX * 2.0 ** -max(j, 1.0) / I, DBL_MAX * 2.0 ** -rng.uniform(1e-6, 1) / bound)
+    cs = [c * scale for c in cs]
+    if not all(abs(c) < DBL_MAX / 2 for c in cs): return None
+    # the integrand's own arithmetic must not overflow (Horner intermediates c_k + t (c_k+1 + ...); powers and partial sums)
+    H = max(sum(abs(cs[i]) * T ** (i - k) for i in range(k, 6)) for k in range(6))
+    if not (H < DBL_MAX / 4): return None
+    if not (abs(exact_quintic(cs, a, b, s)) < Fraction(DBL_MAX) * (1 - Fraction(1, 10 ** 9))): return None       # the integral is representable
+    eps = rand_eps(rng, None)
+    depth = rng.choice([0, 0, 1, 1, 2, 2, 3, 3, 4, 5, 6, 8, rng.randint(0, dmax)])
+    if fam == "quintic": fx = horner(cs) if rng.random() < 0.6 else powsum(cs); params = cs
+    else: fx = horner(cs, f"- x {C(s)}"); params = [s] + cs
+    if rng.random() < 0.3: a, b = b, a
     return a, b, eps, depth, fam, params, fx
 
 
@@ -839,6 +894,9 @@ def generate(rng, tier):
     for k in range(nf // 2):
         add("int", gen_regular(rng, dmax, far=True), ("far",))
         add("int" if k % 5 else rng.choice(["swap", "epssign"]), gen_any(rng, dmax, far=True), ("far",))
+    # polynomials whose values, panel estimates and integral lie at the upper end of the double range (ladder DBL_MAX * 2^-j)
+    for k in range(12000 if big else 360):
+        add("int" if k % 8 else rng.choice(["swap", "epssign"]), gen_huge(rng, dmax), ("huge",))
     # full recursion trees (the evaluation-count bound is attained): eps = 0 / the smallest of the quantifier, depths 0..7, every kind
     # of integrand, half of them not finite somewhere on the grid
     for k in range(6000 if big else 400):
@@ -1102,10 +1160,14 @@ def value_preds(op, a, b, eps, dn, fam, params, v, warn, leaves):
         T = max(abs(a - s), abs(b - s))
         fmax = sum(abs(cf) * T ** k for k, cf in enumerate(cs))
         dfmax = sum(k * abs(cf) * T ** (k - 1) for k, cf in enumerate(cs) if k >= 1)
-        slack = (64 + 2 * dn) * EPS * wd * (fmax + (X * dfmax if fam == "qshift" else 0.0)) + inh * fmax
+        k0 = (64 + 2 * dn) * EPS * wd
+        slack = k0 * fmax + (k0 * X * dfmax if fam == "qshift" else 0.0) + inh * fmax
         if not (slack == slack and slack != math.inf): return out
+        # region of the signature, decided from the request: can an intermediate of the rule as written reach DBL_MAX?
+        region = "" if estimates_representable(wd, fmax) else ":estimate-overflow"
+        if abs(I) + Fraction(slack) >= Fraction(DBL_MAX): return out      # the integral itself is not (safely) representable: nothing is claimed
         if not fin or not (abs(Fraction(v) - I) <= Fraction(slack)):
-            out.append((op + ":quintic-exact", f"polynomial of degree <= 5: returned {v!r}, exact integral {float(I)!r}, difference {float(abs(Fraction(v) - I)) if fin else v!r} > rounding slack {slack!r}"))
+            out.append((op + ":quintic-exact" + region, f"polynomial of degree <= 5: returned {v!r}, exact integral {float(I)!r}, difference {float(abs(Fraction(v) - I)) if fin else v!r} > rounding slack {slack!r}"))
     elif fam in ("exp", "cosh", "invpow", "pow"):
         lo, hi = min(a, b), max(a, b)
         sgn = 1.0 if a < b else -1.0
